@@ -418,12 +418,24 @@ fn rt(args: &[String]) {
             let s = rng.below(3) as usize;
             m.secs[s].push(gen_rec(&mut rng, &mut pool, 12));
         }
-        // the property ranges over messages of up to 65535 octets: drop records until it fits
-        while guarded(|| to_pkt(&AMsg { edns: None, ..m.clone() }).serialise_with_size(70000).len()).unwrap_or(0) > 65000 {
+        // the property ranges over messages of up to 65535 octets: drop records until the whole message (with its OPT
+        // record) is encoded complete and with room to spare.  (Measured with the encoder's own limit: beyond 64 KiB
+        // its offsets do not fit 16 bits, which production never asks of it.)
+        loop {
+            let bytes = guarded(|| to_pkt(&m).serialise()).unwrap_or_default();
+            let w = dnswalk::walk(&bytes);
+            let written: usize = w.counts[1..].iter().map(|c| *c as usize).sum();
+            let wanted: usize = m.secs.iter().map(|s| s.len()).sum::<usize>() + m.edns.is_some() as usize;
+            if (bytes.len() <= 65000 && written >= wanted) || wanted <= 1 {
+                break;
+            }
             for s in 0..3 {
                 let l = m.secs[s].len();
                 m.secs[s].truncate(l - l / 8 - 1.min(l));
             }
+        }
+        if std::env::var("VERIF_DEBUG").is_ok() {
+            eprintln!("big: {} records, measured {:?}, plain {:?}", m.secs.iter().map(|s| s.len()).sum::<usize>(), guarded(|| to_pkt(&m).serialise_with_size(70000).len()), guarded(|| to_pkt(&m).serialise().len()));
         }
         out.emit(rt_event(&m, "big"));
     }
